@@ -269,6 +269,10 @@ type Guard struct {
 	Executed  int // executions of the wrapped parser seen below Memoize
 	NoExec    int // requests answered without executing the wrapped parser (cache hit or curtailed call)
 	NoAssert  bool
+	// SpanViolation: online invariant on every result of every memoized parser: each alternative starts where the
+	// parser was invoked (or later, never before) and ends inside the file
+	SpanViolation string
+	FileEnd       int // global position of the end of the file (0: span invariant off)
 }
 
 func NewGuard(base int) *Guard {
@@ -326,6 +330,13 @@ func (gd *Guard) Inside(nt int, p parsley.Parser) parsley.Parser {
 		defer func() { gd.active[k]-- }()
 		n, cp, err := p.Parse(ctx, lrc, pos)
 		gd.CheckList(n)
+		if gd.FileEnd > 0 && gd.SpanViolation == "" {
+			for _, alt := range Alternatives(n) {
+				if alt.Pos() < pos || alt.ReaderPos() < alt.Pos() || int(alt.ReaderPos()) > gd.FileEnd {
+					gd.SpanViolation = fmt.Sprintf("parser %d invoked at offset %d returned %s (file ends at offset %d)", nt, int(pos)-gd.Base, Render(alt, gd.Base), gd.FileEnd-gd.Base)
+				}
+			}
+		}
 		return n, cp, err
 	})
 }
